@@ -144,8 +144,12 @@ func saveFidelity(root string, seed int64, tier string) (res *CaseResult) {
 			res.Situations = append(res.Situations, fmt.Sprintf("fidelity %s sameEncodedLengthAsPrevious=%v", op, sameLen))
 			prevLen = len(want)
 			// fresh instance + independent decode of the raw file
-			st2, _ := store.NewJSONDataStore(dir)
-			got, lerr := st2.Load()
+			st2, oerr := store.NewJSONDataStore(dir)
+			var got *store.PersistedData
+			lerr := oerr
+			if oerr == nil && st2 != nil {
+				got, lerr = st2.Load()
+			}
 			raw, rerr := os.ReadFile(filepath.Join(dir, "data.json"))
 			var ind store.PersistedData
 			var ierr error
